@@ -21,7 +21,15 @@ func genC14(r *Rnd, t Tier) *Case {
 	// a share of the runs reuses the concurrent scenario families of the other properties under the race detector
 	if r.P(0.3) {
 		var c *Case
-		switch r.Intn(6) {
+		switch r.Intn(10) {
+		case 6:
+			c = genC18(r, t)
+		case 7:
+			c = genC01(r, t)
+		case 8:
+			c = genC11(r, t)
+		case 9:
+			c = genC05(r, t)
 		case 0:
 			c = genC04(r, t)
 		case 1:
